@@ -331,8 +331,13 @@ class StdioClient:
                 except Exception as exc:
                     logger.error("Error serializing message in stdin_writer: %s", exc)
                     logger.debug("Failed message type: %s", type(message))
-                    logger.debug("Failed message: %s", repr(message)[:200])
-                    logger.debug("Traceback:\n%s", traceback.format_exc())
+                    try:
+                        # repr() of the offending object can fail too (very deep
+                        # nesting, a broken __repr__); that must not end the writer
+                        logger.debug("Failed message: %s", repr(message)[:200])
+                        logger.debug("Traceback:\n%s", traceback.format_exc())
+                    except Exception:
+                        pass
                     continue
 
             logger.debug("stdin_writer exiting; closing server stdin")
